@@ -2,13 +2,14 @@ import PV.Drv.Codec
 import PV.NumFloat
 import PV.Drv.C09
 import PV.Drv.Sgp4
+import PV.Drv.Numeric
 namespace PV.Drv
 
 def echoF : Handler := fun args => fmtFs (args.map parseF)
 def echoS : Handler := fun args => " ".intercalate (args.map (fmtS ∘ parseS))
 
 def table : List (String × Handler) :=
-  [("echoF", echoF), ("echoS", echoS)] ++ C09.handlers ++ Sgp4.handlers
+  [("echoF", echoF), ("echoS", echoS)] ++ C09.handlers ++ Sgp4.handlers ++ Numeric.handlers
 
 def lookup (op : String) : Option Handler := (table.find? (·.1 == op)).map (·.2)
 
